@@ -466,8 +466,8 @@ def trace_modes(tr, cnt):
             cnt["palette_32_entries"] += 1
         if dofs:
             cnt["direct_offset_nonzero"] += 1
-        if nv == 32768:
-            cnt["slice_of_32768_values(section>32767)"] += 1
+        if nv >= 32767:
+            cnt["slice_of_32767_values(section>32767)"] += 1
         cnt["wdiv=%d" % wdiv] += 1
         if z != 6:
             cnt["zdiv=%d" % z] += 1
@@ -633,7 +633,8 @@ def reorder_batch(rjobs, base, rng, table, skmax, use_model, bad, diffs, cnt, no
         if mre is not None:
             for pj, r in prs:
                 if pj["vals"][0] == "rand":
-                    model_checks.append((ji, pj, r["s"], [gen_values(pj["vals"], n)[p] if p >= 0 else 0 for p in mre[ji]] if len(mre[ji]) < 4000000 else None))
+                    wv = gen_values(pj["vals"], n)
+                    model_checks.append((ji, pj, r["s"], [wv[p] if 0 <= p < n else 0 for p in mre[ji]]))
         if mre is not None and mre[ji] != rec:
             diffs.append(({"correspondence": "reorder", "cfg": c, "api": j["api"], "layout": j["layout"]},
                           {"job": j, "model_len": len(mre[ji]), "impl_len": len(rec), "first_difference": next((i for i, (a, b_) in enumerate(zip(mre[ji], rec)) if a != b_), None),
@@ -677,6 +678,7 @@ def run(tier):
     evals = 0
     nontrivial = set()
 
+    marks = [("build", time.time() - t0)]
     # ---- 1. the encoder on weight sequences: lossless + length, model decoder on its streams
     seqs = make_sequences(rng, tier) + exhaustive_sequences(tier)
     rr = run_jobs([{"k": "enc", "w": w} for _, w in seqs], "enc")
@@ -699,11 +701,13 @@ def run(tier):
         if r["d"] != w:
             bad.append((dict(key, kind="lossless"), {"weights": w[:4000], "decoded": r["d"][:4000], "stream": r["s"][:4000]},
                         "reference decoder does not return the source weights (%d weights, generator %s)" % (len(w), name)))
-        nontrivial.add(("enc", name, len(w), len(set(w))))
+        nontrivial.add(("enc", key["sha"]))
     base_streams = [s for s in streams if s]
+    marks.append(("encode", time.time() - t0))
     # ---- 2. corrupted / truncated streams through the real decoder (forked) and the model
     corrupt = corrupt_streams(rng, [s for s in base_streams if len(s) <= 4096], 1500 if tier == "quick" else 40000)
     cr = run_jobs([{"k": "dec", "s": s.hex()} for s in corrupt], "dec")
+    marks.append(("corrupt", time.time() - t0))
     # ---- 3. reorder: real traversal recovered through encode_weights with index-coded weights (in batches)
     rjobs = make_reorder_jobs(rng, tier, table)
     # ---- 4. out-of-range weights must raise
@@ -714,6 +718,7 @@ def run(tier):
     orr = run_jobs(oor_jobs, "oor", nworkers=4)
     enc_oor = run_jobs([{"k": "enc", "w": [1, 2, v, 3]} for v in (256, -256, 511, 40000, -70000)], "encoor", nworkers=1)
 
+    marks.append(("oor", time.time() - t0))
     # ---- model runs
     model_err = None
     mdec = mstrict = mtrace = mcor = mcors = None
@@ -730,6 +735,7 @@ def run(tier):
     else:
         model_err = "extraction build failed: " + xlog[-500:]
 
+    marks.append(("models", time.time() - t0))
     # ---- compare: encoder streams
     if mdec is not None:
         it = iter(zip(mdec, mstrict, mtrace))
@@ -769,12 +775,14 @@ def run(tier):
             nontrivial.add(("cor", len(s), len(r["v"])))
         elif m != [0]:
             diffs.append(({"correspondence": "decode(corrupted) underrun", "n": len(s)}, {"stream": s.hex(), "model": m[:100], "impl": "exit(1)"}))
+    marks.append(("compare", time.time() - t0))
     # ---- compare: reorder
     valid_n = 0
     for b0 in range(0, len(rjobs), 250):
         v_, e_ = reorder_batch(rjobs[b0:b0 + 250], b0, rng, table, skmax, okx and not model_err, bad, diffs, cnt, nontrivial)
         valid_n += v_
         evals += e_
+    marks.append(("reorder", time.time() - t0))
     # ---- out of range
     oor_bad = []
     for j, r in zip(oor_jobs, orr):
@@ -809,7 +817,7 @@ def run(tier):
 
     # ---- evidence
     modes_needed = ["palette_le_32", "direct_no_palette", "zero_runs", "uncompressed_palette", "uncompressed_direct",
-                    "grc_parameter_switch_without_new_palette", "palette_restart", "slice_of_32768_values(section>32767)", "grc_truncated"]
+                    "grc_parameter_switch_without_new_palette", "palette_restart", "slice_of_32767_values(section>32767)", "grc_truncated"]
     res.cov.update({
         "evaluations": evals, "distinct_nontrivial": len(nontrivial),
         "rule": "distinct (generator, length, alphabet size) weight sequences encoded by the real mlw_codec.encode and decoded by the real and the "
@@ -852,7 +860,7 @@ def run(tier):
                           no_input=True)
     elif not b["ok"]:
         vlib.report_broken_build(res, b, None)
-    res.cov["wall_parts_s"] = round(time.time() - t0, 1)
+    res.cov["wall_parts_s"] = [(k_, round(v_, 1)) for k_, v_ in marks]
     return res.finish()
 
 
